@@ -122,7 +122,7 @@ pub fn db_config() -> DBConfig {
             compress_level: 0,
             // tiny index buckets: a handful of documents already spans several
             // buckets, so splits, migrations and compaction have real work
-            bucket_overload_size: 96,
+            bucket_overload_size: 32,
             ..Default::default()
         },
         lock: None,
